@@ -1309,6 +1309,16 @@ def b_min(ip, args, kwargs, want_max=False):
         if "default" in kwargs:
             return kwargs["default"]
         raise RaiseEx("ValueError", "min of empty sequence")
+    if key is None and len(items) > 1 and \
+            all(isinstance(x, int) and not isinstance(x, bool) or (isinstance(x, Sym) and z3.is_int(x.t))
+                for x in items) and any(isinstance(x, Sym) for x in items):
+        # integers: one if-then-else term instead of a path per comparison (first maximum /
+        # minimum wins on ties, as in CPython - indistinguishable for integers)
+        best_t = term(items[0])
+        for it in items[1:]:
+            t = term(it)
+            best_t = z3.If(t > best_t, t, best_t) if want_max else z3.If(t < best_t, t, best_t)
+        return Sym(best_t)
     best = items[0]
     bk = ip.call_value(key, [best], {}, None) if key else best
     for it in items[1:]:
